@@ -427,6 +427,12 @@ func (env *simEnv) exec(client, idx int, op Op) (rec Rec) {
 		rec.N, rec.N2 = int(h), m
 	case "close":
 		api.closeF()
+	case "fill":
+		// N distinct unit-cost keys starting at Key (bulk fill; one history record)
+		for i := 0; i < op.N; i++ {
+			api.set(op.Key+i, int64(op.Key+i)<<8|5, 1, 0)
+		}
+		rec.N = op.N
 	case "sleep":
 		simrt.Sleep(op.Dur)
 	case "advance":
